@@ -4,7 +4,7 @@
    so that it is compiled and audited with the rest. *)
 From Coq Require Import ZArith NArith Bool List.
 From SV Require Import Common.GoInt C13.Base C13.Index C13.Str C13.Seq C13.Spec.
-From SV Require Import C13.ProofsIndex C13.ProofsSlice.
+From SV Require Import C13.ProofsIndex C13.ProofsSlice C13.ProofsSeq C13.ProofsStr.
 From SV Require C13.History.
 Import ListNotations.
 Open Scope Z_scope.
@@ -41,6 +41,59 @@ Theorem indices_clamp :
   forall n lo hi, 0 <= n <= 2^61 -> indices lo hi n = clamped_bounds n lo hi.
 Proof. exact indices_clamp_lemma. Qed.
 
+(* Every list method, every receiver, every argument tuple (wrong arity, wrong
+   types, None, integers of any size): result and the list afterwards equal
+   the specification, or both fail.  index: sub-range by the slice conventions;
+   insert: clamped position; pop: the -n <= i < n rule; remove: first equal. *)
+Theorem list_methods_correct :
+  forall m recv args,
+    zlen recv <= 2^61 ->
+    list_method m recv args = of_spec (spec_list_method (lspec m) recv args).
+Proof. exact list_methods_correct_lemma. Qed.
+
+(* reversed / zip (shortest argument) / enumerate (exact start + i) / any / all,
+   for every argument tuple *)
+Theorem builtins_correct :
+  forall f args, builtin f args = of_spec (spec_builtin (bspec f) args).
+Proof. exact builtins_correct_lemma. Qed.
+
+(* s * n: n <= 0 (of any size) gives the empty sequence, the 2^30-element cap
+   and counts beyond 32 bits fail, otherwise n copies *)
+Theorem repeat_correct :
+  forall (A : Type) (xs : list A) n,
+    zlen xs <= 2^61 -> repeat_impl xs n = of_spec (repeat_spec xs n).
+Proof. exact repeat_correct_lemma. Qed.
+
+Theorem concat_correct :
+  forall x y, binary_plus x y = of_spec (spec_plus x y).
+Proof. exact plus_correct_lemma. Qed.
+
+(* String methods.  FULL statement: for every method m, receiver and argument
+   tuple, string_method m recv args = of_spec (spec_string_method (sspec m) recv args).
+   Proved here for find, rfind, index, rindex, startswith, endswith (incl. tuples
+   and sub-ranges), partition, rpartition, strip, lstrip, rstrip, join,
+   removeprefix, removesuffix, upper, lower, capitalize, title and the seven
+   is* predicates.  Missing: count, split, rsplit, splitlines, replace
+   (proved_method = false; they are covered by the correspondence / oracles
+   only).  Excluded input: an explicit empty cutset for the strip family, where
+   the full statement is FALSE on the unchanged tree (strip_empty_cutset_refuted). *)
+Theorem string_methods_correct_partial :
+  forall m recv args,
+    proved_method m = true ->
+    (strip_method m = true -> args <> [VStr []]) ->
+    blen recv <= 2^61 ->
+    string_method m recv args = of_spec (spec_string_method (sspec m) recv args).
+Proof. exact string_methods_correct_partial_lemma. Qed.
+
+(* " a ".strip("") strips white space; the specification (cutset = the given
+   characters) and Python 3 leave the string alone.  Known finding strip:empty-cutset. *)
+Theorem strip_empty_cutset_refuted :
+  exists recv args which,
+    string_strip recv args which <>
+    of_spec (spec_strip recv args (match which with 2%nat => false | _ => true end)
+                                  (match which with 1%nat => false | _ => true end)).
+Proof. exact strip_refuted_lemma. Qed.
+
 (* Non-vacuity *)
 Example slice_premises_hold :
   let xs := [98; 97; 110; 97; 110; 97]%N in
@@ -51,4 +104,14 @@ Example slice_premises_hold :
   slice_impl xs ANone ANone (AInt 0) = Err /\
   get_index xs (AInt (-6)) = Ok 98%N /\ get_index xs (AInt 6) = Err /\
   indices (AInt (-2)) (AInt (2^80)) 6 = Some (4, 6).
+Proof. vm_compute. repeat split; intro; discriminate. Qed.
+
+Example method_premises_hold :
+  let recv := [98; 111; 110; 98; 111; 110]%N in
+  proved_method MRfind = true /\ blen recv <= 2^61 /\
+  string_method MRfind recv [VStr [111; 110]%N; VNone; VInt 5] = Ok (VInt 1) /\
+  string_method MStrip [32; 97; 32]%N [VStr [97]%N] = Ok (VStr [32; 97; 32]%N) /\
+  list_method LInsert [VInt 1; VInt 2] [VInt (-1); VInt 9] = Ok (VNone, [VInt 1; VInt 9; VInt 2]) /\
+  builtin BZip [VList [VInt 1; VInt 2]; VTuple [VInt 3]] = Ok (VList [VTuple [VInt 1; VInt 3]]) /\
+  repeat_impl [1; 2]%N (-5) = Ok [].
 Proof. vm_compute. repeat split; intro; discriminate. Qed.
